@@ -57,7 +57,8 @@ PROPS = {
     'C10': dict(
         title='Message queue is a bounded FIFO of fixed buffers for every geometry',
         rule='case = geometry (depth 1..32, msg_len from a fixed set or random <=2000, slack < msg_len; storage an '
-             'exact heap block under ASan) + optional pre-cycling + <=150 ops claim/send(any unsent)/receive/'
+             'exact heap block under ASan) + optional pre-cycling (none / <=2*depth / 200..600 / 65400..65700 complete '
+             'claim-send-receive-release rounds, so 8- and 16-bit index arithmetic has wrapped) + <=150 ops claim/send(any unsent)/receive/'
              'release(oldest)/empty applied in lock-step to a MESSAGEQ_VAR_INIT queue and a messageq_init queue; '
              'enum stages = every history of the given length for depth in {1,2,3,31,32} (31/32 pre-cycled so the '
              'wrap is crossed). Non-trivial: index wraps at depth-1 with >=2 messages outstanding, or depth in '
@@ -72,7 +73,9 @@ PROPS = {
             for d in (1, 2, 3, 31, 32)
         ],
         require={'wrapped-with-two-outstanding': 1000, 'depth-1': 1000, 'depth-32': 1000, 'slack': 1000,
-                 'send-out-of-claim-order-possible': 1000},
+                 'send-out-of-claim-order-possible': 1000,
+                 'long-life (>= 256 messages before the generated operations)': 1000,
+                 'long-life (>= 65536 messages before the generated operations)': 200},
         assumptions=['releases follow receives in receive order (the only order the API documents)'],
     ),
     'C19': dict(
@@ -99,26 +102,26 @@ PROPS = {
     ),
     'C20': dict(
         title='Memory log always holds the most recent 256 messages, oldest first',
-        rule='case = <=30 ops out of: mlog/mlog_nice with one of 12 literal formats (0-3 word-sized args, numbers and '
-             'constant strings), bursts of up to 600 messages (often landing around 256), mlog_clear, '
+        rule='case = <=30 ops out of: mlog/mlog_nice with one of 16 literal formats (0-3 word-sized args: numbers, constant '
+             'strings, `*` field widths; two formats with wide fields so formatted lengths sweep 2..290), bursts of up to 600 messages (often landing around 256), mlog_clear, '
              'mlog_get_line(k) for k in -3..300 / around the end / INT_MIN..INT_MAX extremes, mlog_dump, and (hook) '
              'moving the internal counter to 1..600 below its 2^31 fold, congruent mod 256; optional final sweep '
              'of lines -2..258 and the dump. Non-trivial: a read after >=257 messages or after the fold was crossed. '
              'Distinct = distinct tapes. Thorough adds a hook-free run of 2^31+1000 real mlog calls.',
         stages=[
-            dict(h='mlog', mode='rc', what='random histories', quick=dict(cases=50000, len=200),
+            dict(h='mlog', mode='rc', what='random histories', quick=dict(cases=300000, len=200),
                  thorough=dict(cases=1000000, len=200)),
             dict(h='mlog', mode='custom', what='hook-free 2^31+1000 messages', tiers=('thorough',), workers=1,
                  thorough=dict(timeout=3000, watchdog=0)),
         ],
-        require={'read-after-257-messages': 1000, 'read-across-the-2^31-fold': 500, 'nice-dropped': 100,
+        require={'argument-wider-than-32-bits': 1000, 'read-after-257-messages': 1000, 'read-across-the-2^31-fold': 500, 'nice-dropped': 100,
                  'nice-recorded': 100, 'clear': 1000},
         assumptions=['the harness formats the expected text with snprintf and the same literal format strings',
                      'mlog_verif_set_count (hook) only moves the counter to a value congruent mod 256; the thorough tier crosses the fold without it'],
     ),
     'C18': dict(
         title='Hex dump output parses back to the same bytes; the parser is safe on any text',
-        rule='three kinds of case: (a) byte array of length 0..100 (biased to 0,1,15,16,17,31,32,33,...) dumped with '
+        rule='three kinds of case: (a) byte array of length 0..100 (biased to 0,1,15,16,17,31,32,33,...; one in nine: 255..70001, around 2^8, 2^12, 2^16; those beyond 5000 bytes are parsed back in three windows of 32 lines) dumped with '
              'hex_dump_to_file into a memory stream, format checked, parsed back; (b) text built from the grammar '
              '(all lines or none carry an address: prefix; pairs in either case with optional 0x, all isspace() '
              'blanks, blank lines, trailing junk) whose bytes are known by construction; (c) arbitrary strings over '
@@ -134,7 +137,7 @@ PROPS = {
             dict(h='hex', mode='fuzz', what='libFuzzer over arrays, grammar texts and arbitrary strings',
                  quick=dict(runs=600000, max_len=300, len=260), thorough=dict(runs=40000000, max_len=300, len=260, timeout=3000)),
         ],
-        require={'round-trip-more-than-one-line': 1000, 'grammar-multi-line-with-prefix': 1000, 'arbitrary-string': 1000,
+        require={'round-trip-more-than-one-line': 1000, 'dump-of-256-bytes-or-more': 500, 'dump-of-65535-bytes-or-more': 100, 'grammar-multi-line-with-prefix': 1000, 'arbitrary-string': 1000,
                  'trailing-junk': 1000, 'grammar-without-prefix': 1000},
         assumptions=['texts with an address prefix on only some lines are outside the stated grammar ("on each line") and are generated for the safety oracle only',
                      'glibc isspace/isxdigit accept negative char values (bytes >= 0x80) without faulting'],
@@ -167,8 +170,9 @@ PROPS = {
     ),
     'C12': dict(
         title='Pack/unpack never leaves the buffer, fails stickily, and uses fixed byte order',
-        rule='case = buffer size 0..64 (exact heap block, ASan) + <=24 pack/unpack ops with edge/random values, byte '
-             'counts 0..40 or sized to land one short of / exactly on / one past the end, NULL and non-NULL arrays, '
+        rule='case = buffer size 0..64 (one case in six: 255..70000, around 2^8 and 2^16; exact heap block, ASan) + '
+             '<=24 pack/unpack ops with edge/random values, byte counts 0..40 (big cases: also 250..66000) or sized to '
+             'land one short of / exactly on / one past the end, NULL and non-NULL arrays, '
              'then (pure pack sequences) rewind and unpack everything; custom stage = all 65536 values through every '
              '16-bit op and all single-byte patterns through the 32-bit ops. Non-trivial: the sequence contains both '
              'an exact fit and an overflow. Distinct = distinct tapes.',
@@ -182,7 +186,7 @@ PROPS = {
                  quick=dict(runs=400000, max_len=500, len=400), thorough=dict(runs=30000000, max_len=500, len=400, timeout=3000)),
         ],
         require={'exact-fit': 1000, 'overflow': 1000, 'round-trip': 1000, 'pack-null-source': 1000,
-                 'unpack-null-destination': 1000},
+                 'unpack-null-destination': 1000, 'big-buffer': 1000, 'byte-array>=256': 1000},
         assumptions=['total requested bytes stay far below 2^31 (scope of the property)',
                      'operations declared in pack.h but not implemented are exercised only if the tree defines them (weak references)'],
     ),
@@ -551,7 +555,7 @@ PROPS = {
              'Distinct = distinct consumed tapes (FNV-1a), unioned over workers.',
         stages=[
             dict(h='list', mode='rc', what='random histories',
-                 quick=dict(cases=200000, len=260), thorough=dict(cases=5000000, len=260)),
+                 quick=dict(cases=600000, len=260), thorough=dict(cases=5000000, len=260)),
             dict(h='list', mode='enum', what='all op sequences, reduced domain',
                  params=dict(nodes=3, lists=2, iters=1, keys=2),
                  quick=dict(params=dict(ops=4)), thorough=dict(params=dict(ops=5))),
